@@ -1,6 +1,6 @@
 """C17 — benchmark comparison ignores molecule order and SMILES spelling.
 
-E1: all reactions Rxn(A17, 2) over a 15-molecule alphabet with anagram isomer pairs, aromatic/saturated pairs,
+E1: all reactions Rxn(A17, 2) over an 18-molecule alphabet with anagram isomer pairs, aromatic/saturated pairs,
 aromatic/kekule pairs and ions (thorough: also every reaction with a 3-molecule side against
 every side of <= 2 molecules, and every 3-molecule side against itself); for each reaction all distinct permutations of the
 molecules of each side and the finite spelling family universe.spell (rooted at every atom,
@@ -32,6 +32,7 @@ A17 = [
     "c1ccccc1", "c1ccncc1", "O=[N+]([O-])c1ccccc1",   # aromatic / kekule pairs via spell()
     "[Na+]", "[Cl-]", "CC(=O)[O-]",                   # ions as separate molecules
     "C1CCCCC1", "C1CCNCC1",         # saturated counterparts: differ from the aromatic ring only in letter case
+    "c1ccsc1", "CCCCC", "CCCCO",    # aromatic sulfur (kekule form counts one letter more) next to 5-atom competitors
 ]
 METHODS = ["pathway", "ecfp", "ecfp_inv"]
 
